@@ -8,6 +8,8 @@ import (
 	"encoding/json"
 	"flag"
 	"fmt"
+	"github.com/nyaruka/goflow/excellent"
+	"github.com/nyaruka/goflow/excellent/types"
 	"math/rand"
 	"strings"
 
@@ -305,6 +307,29 @@ func c14QL(args []string) error {
 					}
 					for ci, c := range cases {
 						line := &QLLine{Src: fmt.Sprintf("%s/v%d.%d", src, vi, ci), Kind: "inject", Input: c.exp, Text: c.text, Desc: desc}
+						parseTwice(envN, res, line)
+						emit(line)
+					}
+					// the value arriving through a contact_query template, as the start_session action builds its query: as a
+					// text, as an object that renders through its default, as an element of an array, and as nothing at all
+					tctx := types.NewXObject(map[string]types.XValue{
+						"t": types.NewXText(v),
+						"o": types.NewXObject(map[string]types.XValue{"__default__": types.NewXText(v), "k": types.NewXText(w)}),
+						"a": types.NewXArray(types.NewXText(v), types.NewXText(w)),
+						"n": nil,
+					})
+					for ti, tc := range []struct {
+						tpl string
+						val types.XValue
+					}{{"@t", types.NewXText(v)}, {"@o", types.NewXText(v)}, {"@o.k", types.NewXText(w)}, {"@a", types.NewXArray(types.NewXText(v), types.NewXText(w))}, {"@(t)", types.NewXText(v)},
+						{"@(o)", types.NewXText(v)}, {"@n", nil}} {
+						out, _, _ := excellent.NewEvaluator().Template(envN, tctx, "name = "+tc.tpl+" AND language = \"eng\"", flows.ContactQueryEscaping)
+						rendered := ""
+						if tc.val != nil {
+							rendered = types.Render(tc.val)
+						}
+						line := &QLLine{Src: fmt.Sprintf("%s/v%d.t%d", src, vi, ti), Kind: "inject", Text: out, Desc: desc,
+							Input: qtree{T: "and", Ch: []qtree{cond("attr:name", "=", rendered), cond("attr:language", "=", "eng")}}}
 						parseTwice(envN, res, line)
 						emit(line)
 					}
